@@ -9,6 +9,7 @@ pub mod isolate;
 pub mod tally;
 pub mod util;
 
+pub mod ref_aset;
 pub mod ref_bin;
 pub mod ref_lz;
 pub mod ref_loc;
